@@ -106,14 +106,22 @@ pub(crate) fn align_strong_points(outline: &mut Outline, axis: &mut Axis) -> Opt
         let edge = edges.first()?;
         let delta = edge.fpos as i32 - u;
         if delta >= 0 {
-            store_point(point, dim, edge.pos - (edge.opos - ou));
+            store_point(
+                point,
+                dim,
+                edge.pos.wrapping_sub(edge.opos.wrapping_sub(ou)),
+            );
             continue;
         }
         // Is the point after the last edge?
         let edge = edges.last()?;
         let delta = u - edge.fpos as i32;
         if delta >= 0 {
-            store_point(point, dim, edge.pos + (ou - edge.opos));
+            store_point(
+                point,
+                dim,
+                edge.pos.wrapping_add(ou.wrapping_sub(edge.opos)),
+            );
             continue;
         }
         // Find enclosing edges; for a small number of edges, use a linear
@@ -163,7 +171,7 @@ pub(crate) fn align_strong_points(outline: &mut Outline, axis: &mut Axis) -> Opt
             let scale = if edge_before.scale == 0 {
                 let edge_after = edges.get(min_ix)?;
                 let scale = fixed_div(
-                    edge_after.pos - edge_before.pos,
+                    edge_after.pos.wrapping_sub(edge_before.pos),
                     edge_after.fpos as i32 - before_fpos,
                 );
                 edges[before_ix].scale = scale;
@@ -171,7 +179,11 @@ pub(crate) fn align_strong_points(outline: &mut Outline, axis: &mut Axis) -> Opt
             } else {
                 edge_before.scale
             };
-            store_point(point, dim, before_pos + fixed_mul(u - before_fpos, scale));
+            store_point(
+                point,
+                dim,
+                before_pos.wrapping_add(fixed_mul(u.wrapping_sub(before_fpos), scale)),
+            );
         }
     }
     Some(())
